@@ -121,6 +121,13 @@ CHECKS = {
         "deviation order bound (pairs within groups; thorough adds triples and the full aug cross product); reference table written from docstrings/docs",
         "DESIGN.md §3 C20",
     ),
+    "C11": (
+        "model_checking",
+        "explicit-state exploration of __getitem__ call histories (all index words up to depth 3/4 via de Bruijn arcs) on the real Dataset classes with a fresh-dataset differential oracle, plus exhaustive argument-snapshot purity checks of the functional helpers",
+        "Part (a): every NaN pattern of a 2x3 frame x anchor x three memory layouts through each functional helper, whole-storage snapshots before/after. Part (b): for every synthetic label set (NaN patterns incl. missing anchor, empty and predicted instances) x dataset class x anchor x np_chunks x user_instances_only, every index word up to the depth bound is read from the real dataset; each sample must be bitwise equal to a fresh dataset's first read and to the label spec (NaN stays NaN, zero channel), the cache digest must never change, len(ds) must match, labels unchanged afterwards.",
+        "bounds on frames/animals/depth; augmentation off for part (b)",
+        "DESIGN.md §3 C11",
+    ),
 }
 
 NOT_YET = {}
